@@ -128,6 +128,27 @@ def replay_roundtrip(n, pad, model):
     except Exception as e:  # noqa
         return {'confirmed': True, 'inputs': {'n': n, 'seq': s, 'payload': P.hex()}, 'observed': ['raise', type(e).__name__, str(e)[:100]]}
     ok = all(o is None for o in outs[:-1]) and outs[-1] is not None and (n < 2 or payload_of(outs[-1]) == expected_fields(P))
+    if ok and n >= 2:
+        # the same exchange as part of a longer one: one encoder serves two streams, so the counter of stream 1 comes
+        # round to the same value (8 messages later) - each message must still be delivered exactly once, at its last frame
+        enc = E.NMEA2000Encoder()
+        enc.sequence_counter = s
+        dec = D.NMEA2000Decoder()
+        for k in range(17):
+            src = 1 if k % 8 == 0 else 2
+            Pk = bytes([0xFE, 0x9F] + [(k * 29 + i * 7 + int(model.get(f'p{i}', 0))) % 256 for i in range(2, n)])[:n]
+            o2 = []
+            try:
+                for fr in enc._encode_fast_message(PGN, 3, src, 255, Pk):
+                    fr = bytes(fr) + (bytes([0xFF]) * (8 - len(fr)) if pad else b'')
+                    o2.append(dec.decode_tcp(packet(PGN, src, 255, fr)))
+            except Exception as e:  # noqa
+                return {'confirmed': True, 'inputs': {'n': n, 'seq': s, 'message_index': k}, 'observed': ['raise', type(e).__name__, str(e)[:100]]}
+            if not (all(o is None for o in o2[:-1]) and o2[-1] is not None and payload_of(o2[-1]) == expected_fields(Pk)):
+                return {'confirmed': True, 'inputs': {'n': n, 'first_counter': s, 'padded': bool(pad), 'message_index': k, 'source': src, 'payload': Pk.hex(),
+                                                      'history': '17 consecutive messages from one encoder, sources 1 (every 8th message) and 2'},
+                        'observed': [None if o is None else str(payload_of(o))[:160] for o in o2][-3:], 'expected': 'None for every frame but the last, then this payload',
+                        'how': 'NMEA2000Encoder._encode_fast_message -> NMEA2000Decoder.decode_tcp per frame on the working tree'}
     return {'confirmed': not ok, 'inputs': {'n': n, 'seq': s, 'payload': P.hex(), 'padded': bool(pad)},
             'observed': [None if o is None else str(payload_of(o))[:200] for o in outs][-3:], 'expected': 'None for every frame but the last, then the original payload',
             'how': 'NMEA2000Encoder._encode_fast_message -> NMEA2000Decoder.decode_tcp per frame on the working tree'}
